@@ -7,8 +7,12 @@ package main
 // one audit record; a record that could not be written is lost, the calls after it are audited as always.
 
 import (
+	"bufio"
+	"bytes"
+	"context"
 	"encoding/json"
 	"errors"
+	"fmt"
 	"io"
 	"os"
 	"path/filepath"
@@ -155,4 +159,168 @@ func mcpAuditLife(inb []byte) (any, error) {
 		outs[ci] = o
 	}
 	return map[string]any{"cases": outs}, nil
+}
+
+// mcp-life-steps: ONE MCP server, tool calls one after the other, with changes of the ENVIRONMENT between them (a file a candidate
+// configuration refers to goes away or changes; an environment variable is unset).  C20: a config-writing tool writes only content
+// that parses and compiles - when it writes, not when the same bytes were looked at earlier.
+func init() { register("mcp-life-steps", mcpLifeSteps) }
+
+type mlsStep struct {
+	Call    *malCall `json:"call,omitempty"`
+	Rm      string   `json:"rm,omitempty"`    // relative to the case directory
+	Write   string   `json:"write,omitempty"` // relative path ...
+	Content string   `json:"content,omitempty"`
+}
+
+type mlsCase struct {
+	Setting mcpSetting        `json:"setting"`
+	Initial string            `json:"initial"` // initial config text; %DIR% is replaced by the case directory
+	Files   map[string]string `json:"files"`
+	Steps   []mlsStep         `json:"steps"`
+}
+
+type mlsCallOut struct {
+	IsError bool   `json:"is_error"`
+	OK      *bool  `json:"ok,omitempty"`
+	Applied *bool  `json:"applied,omitempty"`
+	Text    string `json:"text"`
+	// the configuration file right after this call
+	FileSame     bool `json:"file_same_as_before_call"`
+	FileCompiles bool `json:"file_compiles"`
+}
+
+type mlsOut struct {
+	Calls   []mlsCallOut `json:"calls"`
+	Records int          `json:"audit_records"`
+	Err     string       `json:"err,omitempty"`
+}
+
+func mcpLifeSteps(inb []byte) (any, error) {
+	var in struct {
+		Dir   string    `json:"dir"`
+		Cases []mlsCase `json:"cases"`
+	}
+	if err := json.Unmarshal(inb, &in); err != nil {
+		return nil, err
+	}
+	outs := make([]mlsOut, len(in.Cases))
+	for ci, c := range in.Cases {
+		outs[ci] = mlsRun(filepath.Join(in.Dir, "steps"+itoa(ci)), c)
+	}
+	return map[string]any{"cases": outs}, nil
+}
+
+func mlsRun(dir string, c mlsCase) (out mlsOut) {
+	if err := os.MkdirAll(dir, 0o755); err != nil {
+		out.Err = err.Error()
+		return
+	}
+	sub := func(s string) string { return strings.ReplaceAll(s, "%DIR%", dir) }
+	cfgPath := filepath.Join(dir, "Hookaidofile")
+	if err := os.WriteFile(cfgPath, []byte(sub(c.Initial)), 0o600); err != nil {
+		out.Err = err.Error()
+		return
+	}
+	for name, content := range c.Files {
+		if err := os.WriteFile(filepath.Join(dir, name), []byte(content), 0o600); err != nil {
+			out.Err = err.Error()
+			return
+		}
+	}
+	var audit bytes.Buffer
+	inR, inW := io.Pipe()
+	outR, outW := io.Pipe()
+	srv := newMcpServer(inR, outW, &audit, cfgPath, filepath.Join(dir, "hookaido.db"), filepath.Join(dir, "pid"), c.Setting)
+	done := make(chan error, 1)
+	go func() { done <- srv.Serve(context.Background()); outW.Close() }()
+	br := bufio.NewReader(outR)
+	readOne := func() (map[string]any, error) {
+		n := -1
+		for {
+			line, err := br.ReadString('\n')
+			if err != nil {
+				return nil, err
+			}
+			line = strings.TrimSpace(line)
+			if line == "" {
+				break
+			}
+			if strings.HasPrefix(strings.ToLower(line), "content-length:") {
+				fmt.Sscanf(strings.TrimSpace(line[len("content-length:"):]), "%d", &n)
+			}
+		}
+		if n < 0 {
+			return nil, errors.New("frame without Content-Length")
+		}
+		buf := make([]byte, n)
+		if _, err := io.ReadFull(br, buf); err != nil {
+			return nil, err
+		}
+		var m map[string]any
+		err := json.Unmarshal(buf, &m)
+		return m, err
+	}
+	id := 0
+	for _, st := range c.Steps {
+		switch {
+		case st.Rm != "":
+			_ = os.Remove(filepath.Join(dir, st.Rm))
+		case st.Write != "":
+			_ = os.WriteFile(filepath.Join(dir, st.Write), []byte(st.Content), 0o600)
+		case st.Call != nil:
+			id++
+			before, _ := os.ReadFile(cfgPath)
+			args := map[string]any{}
+			for k, v := range st.Call.Args {
+				if s, ok := v.(string); ok {
+					v = sub(s)
+				}
+				args[k] = v
+			}
+			if _, err := inW.Write(frame(map[string]any{"jsonrpc": "2.0", "id": id, "method": "tools/call", "params": map[string]any{"name": st.Call.Name, "arguments": args}})); err != nil {
+				out.Err = "write: " + err.Error()
+				return
+			}
+			resp, err := readOne()
+			if err != nil {
+				out.Err = "read: " + err.Error()
+				return
+			}
+			co := mlsCallOut{}
+			if _, bad := resp["error"]; bad {
+				co.IsError = true
+			} else if r, ok := resp["result"].(map[string]any); ok {
+				co.IsError, _ = r["isError"].(bool)
+				if cl, ok := r["content"].([]any); ok && len(cl) > 0 {
+					if cm, ok := cl[0].(map[string]any); ok {
+						co.Text, _ = cm["text"].(string)
+					}
+				}
+				if sc, ok := r["structuredContent"].(map[string]any); ok {
+					if v, ok := sc["ok"].(bool); ok {
+						co.OK = &v
+					}
+					if v, ok := sc["applied"].(bool); ok {
+						co.Applied = &v
+					}
+				}
+			}
+			after, _ := os.ReadFile(cfgPath)
+			co.FileSame = string(before) == string(after)
+			co.FileCompiles = configCompiles(after)
+			if len(co.Text) > 300 {
+				co.Text = co.Text[:300]
+			}
+			out.Calls = append(out.Calls, co)
+		}
+	}
+	inW.Close()
+	<-done
+	for _, line := range strings.Split(strings.TrimSpace(audit.String()), "\n") {
+		if strings.TrimSpace(line) != "" {
+			out.Records++
+		}
+	}
+	return
 }
